@@ -47,14 +47,62 @@ def tool_env(extra=None):
         e.update(extra)
     return e
 
-def run(argv, timeout=20, env=None, stdin=None, cwd=None):
-    """Run a tool; returns (rc, stdout+stderr text). rc=-9 style negatives = signal, 'TIMEOUT' = timed out."""
+def run(argv, timeout=20, env=None, stdin=None, cwd=None, max_output=64 << 20):
+    """Run a tool; returns (rc, stdout+stderr text). rc negative = signal, 'TIMEOUT' = timed out (or flooded its output: more than
+    max_output bytes, which is treated like non-termination).  Only the first 256 KiB and the last 64 KiB of the output are kept."""
+    import select
     try:
-        r = subprocess.run(argv, stdout=subprocess.PIPE, stderr=subprocess.STDOUT, env=env or tool_env(), timeout=timeout,
-                           stdin=subprocess.DEVNULL if stdin is None else None, input=stdin, cwd=cwd)
-        return r.returncode, r.stdout.decode('latin1')
-    except subprocess.TimeoutExpired as ex:
-        return 'TIMEOUT', (ex.stdout or b'').decode('latin1')
+        pr = subprocess.Popen(argv, stdout=subprocess.PIPE, stderr=subprocess.STDOUT, env=env or tool_env(),
+                              stdin=subprocess.DEVNULL if stdin is None else subprocess.PIPE, cwd=cwd)
+    except OSError as e:
+        return 127, 'cannot execute %s: %s' % (argv[0], e)
+    if stdin is not None:
+        try:
+            pr.stdin.write(stdin); pr.stdin.close()
+        except OSError:
+            pass
+    fd = pr.stdout.fileno()
+    head = bytearray(); tail = bytearray(); total = 0
+    deadline = time.time() + timeout
+    flooded = False; eof = False
+    while True:
+        left = deadline - time.time()
+        if left <= 0:
+            break
+        r, _, _ = select.select([fd], [], [], min(left, 1.0))
+        if not r:
+            continue
+        b = os.read(fd, 65536)
+        if not b:
+            eof = True
+            break
+        total += len(b)
+        if len(head) < (256 << 10):
+            head += b[:(256 << 10) - len(head)]
+        tail += b
+        if len(tail) > (128 << 10): tail = tail[-(64 << 10):]
+        if total > max_output:
+            flooded = True
+            break
+    if total <= (256 << 10):
+        out = bytes(head)
+    else:
+        t = bytes(tail[-(64 << 10):])
+        out = bytes(head) + b'\n...[output shortened, %d bytes in total]...\n' % total + t
+    if flooded or not eof:
+        pr.kill()
+        try: pr.wait(timeout=10)
+        except Exception: pass
+        pr.stdout.close()
+        return 'TIMEOUT', out.decode('latin1') + ('\n[output flood: more than %d bytes]' % max_output if flooded else '')
+    try:
+        rc = pr.wait(timeout=max(1.0, deadline - time.time()))
+    except subprocess.TimeoutExpired:
+        pr.kill(); pr.wait()
+        pr.stdout.close()
+        return 'TIMEOUT', out.decode('latin1')
+    pr.stdout.close()
+    return rc, out.decode('latin1')
 
 # ---------------------------------------------------------------- scratch
 _scratch = None
